@@ -202,6 +202,10 @@ def method_design(idx, shape, types):
         g["responseHeaders"] = ["r1"]
     if ra["loc"] == "trailer":
         g["trailers"] = ["r1"]
+    if shape.get("explicit"):
+        # the message attributes listed explicitly: Message(func(){ Attribute("a0"); Attribute("a1") })
+        g["message"] = ["a0"] + (["a1"] if pa["loc"] == "message" else [])
+        g["responseMessage"] = ["r0"] + (["r1"] if ra["loc"] == "message" else [])
     m = {"name": mname, "grpc": g}
     if stream == "none":
         m["payload"], m["result"] = {"attrs": pattrs}, {"attrs": rattrs}
@@ -215,7 +219,8 @@ def method_design(idx, shape, types):
 
 
 def shape_of(v):
-    return {"pa": v["pa"], "ra": v["ra"], "stream": v.get("stream", "none"), "tagmode": v.get("tagmode", "ok"), "withmd": v.get("withmd", False)}
+    return {"pa": v["pa"], "ra": v["ra"], "stream": v.get("stream", "none"), "tagmode": v.get("tagmode", "ok"), "withmd": v.get("withmd", False),
+            "explicit": v.get("explicit", False)}
 
 
 def shape_key(v):
@@ -331,7 +336,13 @@ def scenario_for(v, sid, svc, gometh, mname, rng=None):
     rc = randomized(concrete(v["ra"], v["rv"], mname), v["ra"], v["rv"], rng)
     if rc is not None:
         result["r1"] = rc
-    return {"id": sid, "service": svc, "method": gometh, "payload": payload, "outcome": {"kind": "result", "value": result}}, c, rc
+    scn = {"id": sid, "service": svc, "method": gometh, "payload": payload, "outcome": {"kind": "result", "value": result}}
+    if v.get("raw"):
+        # a bare request message: the fields of the stand-in pb struct by name, unset attributes simply missing
+        md = {"tok": ["tkn"]} if v.get("withmd") else {}
+        scn["raw"] = {"msg": {k: x for k, x in payload.items() if k != "tok"}, "metadata": md}
+        del scn["payload"]
+    return scn, c, rc
 
 
 # ------------------------------------------------------------------ projection: proto table
